@@ -350,6 +350,25 @@ Definition eval_inv (inv : invocation) (env : binding) : res call :=
       end
   end.
 
+(* the invocation generated for a signature:  _call(p.., *va, k=k.., **vk) *)
+Definition names_of_kind (k : kind) (ps : list param) : list name :=
+  map p_name (filter (fun p => kind_eqb (p_kind p) k) ps).
+
+Definition inv_of_params (ps : list param) : invocation :=
+  mkInv (names_of_kind PosOrKw ps)
+        (hd_error (names_of_kind VarPos ps))
+        (map (fun n => (n, n)) (names_of_kind KwOnly ps))
+        (hd_error (names_of_kind VarKw ps)).
+
+(* the forwarding protocol, for any signature: the wrapper receives the bound
+   positional-or-keyword parameters by position, then *args; the keyword-only ones
+   by keyword, then **kwargs *)
+Definition forwarded (ps : list param) (c : call) : option call :=
+  match bind ps c with
+  | Ok env => match eval_inv (inv_of_params ps) env with Ok c' => Some c' | Raise _ => None end
+  | Raise _ => None
+  end.
+
 (* Calling g = update_wrapper(wrapper, f, ...) on a call shape: returns what the
    wrapper received (None if it was never reached) and the outcome.  The
    harness's wrapper either forwards its arguments unchanged to f and
